@@ -20,7 +20,7 @@ RULE = ("random setter histories (set_eps / set_sig_figures with and without arg
         "intersection) and, for Point/Vector, by 4E (must be unequal); finally the previous setting is restored and the first "
         "scenario re-evaluated; a scenario whose realised float perturbation is 0 or off by more than an ulp is not judged; "
         "distinct by content hash")
-KINDS = ("P", "VEC", "L", "PL", "S", "H", "PG", "PH", "PLG")      # PLG: a Plane given in general form a x + b y + c z = d
+KINDS = ("P", "VEC", "L", "PL", "S", "H", "PG", "PH", "PLG", "PGR")      # PLG: a Plane given in general form a x + b y + c z = d; PGR: a polygon whose vertex list is a closed ring (first vertex repeated at the end)
 FRAMES = {
     "axis": ((1, 0, 0), (0, 1, 0), (0, 0, 1)),
     "axis-perm": ((0, 0, 1), (1, 0, 0), (0, 1, 0)),
@@ -87,7 +87,7 @@ def cases(rng, budget, widx, nworkers, tier):
         yield {"hist": hist, "final": final, "E": e, "kind": kind, "frame": rng.choice(list(FRAMES)),
                "o": [rng.randint(-16, 16) for _ in range(3)], "which": rng.randint(0, 50), "axis": rng.randint(0, 2),
                "div": rng.choice((1000, 1000, 100)), "sign": rng.choice((1, -1)), "pretouch": rng.random() < 0.4, "early": rng.random() < 0.3,
-               "build_after": rng.choice((None, None, None, "Circle", "Cylinder", "Cone", "Sphere"))}
+               "build_after": rng.choice((None, None, None, "Circle", "Cylinder", "Cone", "Sphere")), "vscale": rng.choice((1, 1, 0.5, 1.5, 2.5))}
 
 
 # ---- catalogue
@@ -110,6 +110,8 @@ def _defpoints(kind):
         return [("p", (a, b, c)) for a in (0, 2) for b in (0, 2) for c in (0, 2)]
     if kind == "PLG":
         return [("g", (0, 0, 1))]
+    if kind == "PGR":
+        return [("p", (0, 0, 0)), ("p", (2, 0, 0)), ("p", (2, 2, 0)), ("p", (0, 2, 0)), ("p", (0, 0, 0))]
     raise ValueError(kind)
 
 
@@ -133,7 +135,7 @@ def _build(G, kind, vals):
         return G.Plane(vals[0][0], vals[0][1], vals[0][2], vals[0][3])
     if kind == "S":
         return G.Segment(P(vals[0]), P(vals[1]))
-    if kind == "PG":
+    if kind in ("PG", "PGR"):
         return G.ConvexPolygon(tuple(P(v) for v in vals))
     return G.ConvexPolyhedron(tuple(G.ConvexPolygon(tuple(P(vals[i]) for i in f)) for f in _BOX_FACES))
 
@@ -144,7 +146,7 @@ def _points_of(G, kind, vals):
         return [G.Point(*vals[0][4:7])]
     if kind in ("L", "H", "PL"):
         return [G.Point(*vals[0])]
-    if kind in ("S", "PG", "PH"):
+    if kind in ("S", "PG", "PH", "PGR"):
         return [G.Point(*v) for v in vals]
     return []
 
@@ -159,6 +161,8 @@ def _coords(case):
             # coefficients (a, b, c) = third frame vector, d = n.o (exact: n integral, o in eighths); the point o rides along
             out.append([float(x) for x in v] + [float(sum(v[t] * o[t] for t in range(3)))] + [float(x) for x in o])
             continue
+        if typ == "v" and case["kind"] == "VEC":
+            v = [x * case.get("vscale", 1) for x in v]        # half-integer components as well
         if typ == "p":
             v = [o[t] + v[t] for t in range(3)]
         out.append([float(x) for x in v])
@@ -214,7 +218,7 @@ def _evaluate(G, kind, A, B, valsA, valsB):
         out["contains"] = ok
         try:
             r = G.intersection(A, B)
-            out["coincident"] = (r is not None) and (M.kind(r) == ("PL" if kind == "PLG" else kind)) and bool(r == A)
+            out["coincident"] = (r is not None) and (M.kind(r) == {"PLG": "PL", "PGR": "PG"}.get(kind, kind)) and bool(r == A)
         except Exception as e:
             out["coincident"] = "raises %s: %s" % (type(e).__name__, e)
     elif kind == "P":
